@@ -80,18 +80,59 @@ def _diff(a, b):
     return {hx(k): "differs" for k in set(a) | set(b) if a.get(k) != b.get(k)}
 
 
+def big_shapes(run):
+    """All four creators and the three v2 hashers on large shapes: a 2^25-byte piece with a file
+    of more than one piece, 2^26 bytes and more that are not a whole number of blocks, more than
+    2048 pieces."""
+    from harness.common import Blob
+    for pl, n in ((2 ** 25, 40 * 2 ** 20 + 77), (2 ** 20, 2 ** 26 + 777), (16384, 2050 * 16384 - 5)):
+        with sandbox("c10b") as box:
+            root = os.path.join(box, "payload")
+            os.makedirs(root)
+            pat = Blob.rand(13, 1021).bytes()
+            with open(os.path.join(root, "big.bin"), "wb") as fd:
+                fd.write((pat * (n // 1021 + 1))[:n])
+            case = {"big_shape": True, "pl": pl, "size": n}
+            metas = {}
+            for kind in ("a2", "v2", "a3", "hy"):
+                try:
+                    metas[kind] = impl.create(kind, root, os.path.join(box, kind + ".torrent"), piece_length=pl)
+                except Exception as exc:
+                    run.fail("impl-vs-spec", dict(case, creator=kind), {"raised": repr(exc)})
+            for a, b in (("a2", "v2"), ("a3", "hy")):
+                if a in metas and b in metas:
+                    la = impl.decode(metas[a]).get(b"piece layers")
+                    lb = impl.decode(metas[b]).get(b"piece layers")
+                    if refspec.info_span(metas[a]) != refspec.info_span(metas[b]) or \
+                            {bytes(k): bytes(v) for k, v in la.items()} != {bytes(k): bytes(v) for k, v in lb.items()}:
+                        run.fail("impl-vs-spec", dict(case, pair=[a, b]),
+                                 {"why": "info dictionaries or piece layers differ"})
+            got = cr.run_hashers(os.path.join(root, "big.bin"), pl)
+            norm = {t: tuple(bytes(x) if isinstance(x, (bytes, bytearray)) else x for x in v)
+                    for t, v in got.items()}
+            if not (norm["V2"] == norm["HY"][:2] == norm["F0"][:2] == norm["F1"][:2]
+                    and norm["HY"][2:] == norm["F1"][2:]):
+                run.fail("impl-vs-spec", dict(case, file="big.bin"), {"why": "hashers disagree", "size": n})
+            run.case(["big-shape", pl, n], True, sample=case, classes=["big-shape"])
+
+
 def run(tier, seed, replay=None):
     run = Run("C10", tier, seed, RULE)
     drv = Driver()
 
     def still_fails(c):
         probe = Run("C10", tier, seed, RULE)
+        if c.get("big_shape"):
+            return True
         files = cr.files_of_case(c)
         run_case(probe, Driver(), files, c["pl"], c["single"], "shrink")
         return any(f.kind == "impl-vs-spec" for f in probe.failures)
     run.shrinker = still_fails
     if replay:
         c = replay["case"]
+        if c.get("big_shape"):
+            big_shapes(run)
+            return run.finish()
         if c.get("scaled"):
             scaled_sweep(run, drv, "quick")
             return run.finish()
@@ -105,5 +146,6 @@ def run(tier, seed, replay=None):
         files, pl, single = cr.make_case(run.rng, tier)
         run_case(run, drv, files, pl, single, "random")
     settle_model(run, drv)
+    big_shapes(run)
     scaled_sweep(run, drv, tier)
     return run.finish()
